@@ -538,6 +538,24 @@ namespace hgraph::ts_data_plan_factory_detail
                 return ops.tracking_impl(ops.context, values_.value_memory(slot))->last_modified_time != MIN_DT;
             }
 
+            /**
+             * A key written, erased and inserted again within one cycle
+             * resurrects a child that has already ticked in this cycle. The
+             * child's own tracking coalesces further writes of the cycle, so
+             * it will not notify this dictionary again: re-establish the
+             * slot's modified bit (cleared by the erase) here, or the cycle's
+             * delta silently omits the key.
+             */
+            void restore_modified_of_resurrected_slot(std::size_t slot, DateTime modified_time)
+            {
+                const auto &ops = element_type_.ops_ref();
+                if (ops.tracking_impl(ops.context, values_.value_memory(slot))->last_modified_time == modified_time &&
+                    child_has_current_value(slot))
+                {
+                    modified_.set(slot);
+                }
+            }
+
             void reserve(std::size_t capacity)
             {
                 keys_.reserve_to(capacity);
@@ -564,11 +582,13 @@ namespace hgraph::ts_data_plan_factory_detail
                 {
                     removed_.reset(result.slot);
                     value_published_.set(result.slot);
+                    restore_modified_of_resurrected_slot(result.slot, modified_time);
                 }
                 else if (child_valid(result.slot))
                 {
                     value_published_.set(result.slot);
                     added_.set(result.slot);
+                    restore_modified_of_resurrected_slot(result.slot, modified_time);
                 }
                 (void)key_set_tracking_.record_modified(modified_time);
                 return mutation_result(result.slot, result.constructed);
@@ -591,11 +611,13 @@ namespace hgraph::ts_data_plan_factory_detail
                 {
                     removed_.reset(result.slot);
                     value_published_.set(result.slot);
+                    restore_modified_of_resurrected_slot(result.slot, modified_time);
                 }
                 else if (child_valid(result.slot))
                 {
                     value_published_.set(result.slot);
                     added_.set(result.slot);
+                    restore_modified_of_resurrected_slot(result.slot, modified_time);
                 }
                 (void)key_set_tracking_.record_modified(modified_time);
                 return mutation_result(result.slot, result.constructed);
